@@ -13,7 +13,7 @@ AddTrait(n, cp, e, h, own) == /\ FixedTraits = <<>> /\ Len(in.traits) < MaxTrait
                          /\ (h = "struct" => in.dt = "struct" /\ in.shape = "tuple")
                          /\ in' = [in EXCEPT !.traits = Append(@, [n |-> n, cp |-> cp, err |-> e, hint |-> h, own |-> own])]
 AddTAttr(n, cp, own) == /\ Len(in.tattrs) < MaxTAttrs /\ in.ms = <<>>
-                        /\ (n \notin TypeLevelOk => cp = "-")
+                        /\ (TLabel(n) \notin TypeLevelOk => cp = "-")
                         /\ (SpellAll \/ n = "bogus" \/ own = FALSE)            \* spelling is C13's business; only `bogus` depends on it
                         /\ in' = [in EXCEPT !.tattrs = Append(@, [n |-> n, cp |-> cp, own |-> own])]
 AddMember == Len(in.ms) < MaxMembers /\ in.shape # "unit" /\ in' = [in EXCEPT !.ms = Append(@, <<>>), !.vf = Append(@, <<>>)]
@@ -26,7 +26,7 @@ AddVFAttr(n, cp) == /\ in.dt = "enum" /\ in.vf # <<>> /\ in.vf[Len(in.vf)] # <<>
 AddMAttr(n, cp, own) == /\ in.ms # <<>> /\ Len(in.ms[Len(in.ms)]) < MaxMAttrs /\ in.vf[Len(in.vf)] = <<>>
                         /\ (n \notin MemberOk => cp = "-") /\ (n = "map_bare" => cp = "-")
                         /\ (SpellAll \/ n = "bogus" \/ own = FALSE)
-                        /\ ~(in.dt = "enum" /\ n = "child")                  \* #[child] on a variant: no documented rule either way
+                        /\ ~(in.dt = "enum" /\ IsChild(n))                 \* #[child] on a variant: no documented rule either way
                         /\ ~(n \in {"literal", "pattern", "type_hint"} /\ in.dt = "enum" /\ \E x \in ToSetQ(in.ms[Len(in.ms)]) : x.n \in {"literal", "pattern"} /\ x.n # n)
                         /\ in' = [in EXCEPT !.ms[Len(in.ms)] = Append(@, [n |-> n, cp |-> cp, own |-> own])]
 Next == \/ \E n \in TNames, cp \in {"A", "B"}, e \in {"-", "E1"}, h \in Hints, own \in Owns : AddTrait(n, cp, e, h, own)
